@@ -338,7 +338,11 @@ func (s *Service) accountsForEpochWithFilter(ctx context.Context, epoch phase0.E
 		state := api.ValidatorToState(validator, nil, epoch, s.farFutureEpoch)
 		stateCount[state]++
 		if filterFunc(state) {
-			account := s.accounts[validator.PublicKey]
+			account, exists := s.accounts[validator.PublicKey]
+			if !exists {
+				// The account has been removed by a refresh since the public keys were obtained.
+				continue
+			}
 			s.log.Trace().
 				Str("name", account.Name()).
 				Str("public_key", fmt.Sprintf("%x", account.PublicKey().Marshal())).
@@ -405,8 +409,12 @@ func (s *Service) accountsForEpochByIndexWithFilter(ctx context.Context, epoch p
 		state := api.ValidatorToState(validator, nil, epoch, s.farFutureEpoch)
 		if filterFunc(state) {
 			s.mutex.RLock()
-			validatingAccounts[index] = s.accounts[validator.PublicKey]
+			account, exists := s.accounts[validator.PublicKey]
 			s.mutex.RUnlock()
+			if exists {
+				// Otherwise the account has been removed by a refresh since the public keys were obtained.
+				validatingAccounts[index] = account
+			}
 		}
 	}
 
